@@ -11,7 +11,7 @@ import (
 
 func init() {
 	register("C03", propMeta{
-		Explanation: "E-GUARD + E-PROV + E-CONST. O-1 pool selection: AddSnowflake pushes to the heap loaded from field 'snowflakes' exactly on the natType == NATUnrestricted edge (else restrictedSnowflakes); the poll-timeout branch removes from the heap chosen by the same mapping on the same NAT value (sibling agreement); matchSnowflake pops from restrictedSnowflakes exactly on the client-NAT == NATUnrestricted edge, else from snowflakes (the complement). O-2 NAT vocabulary: the NAT constants of broker, common/nat and proxy/lib are equal, and both decoders accept exactly {\"\", unknown, restricted, unrestricted}, map \"\" to unknown, and reject everything else with an error. O-3 refusal only when the eligible pool is empty: matchSnowflake returns nil only through the false edge of Len() > 0 on the selected heap, test and pop in one critical section; ClientOffers answers 'no proxies' only when matchSnowflake returned nil. O-4 load order: Less compares the clients counts of its two arguments with strict <, clients never changes while queued, Swap/Push/Pop maintain index. Every clause is necessary: e.g. swapping the heaps in one branch gives a restricted client a restricted proxy. Added after the second seeding round: O-4 also requires that Push/Pop/Swap of SnowflakeHeap have no static caller (container/heap only); O-6 the legacy client format takes its NAT type from Header.Get(\"Snowflake-NAT-Type\") and hands it to the shared handler; O-7/C04 the deregistration obligations of C04 (a proxy leaves the pool it was put in on exactly the unclaimed edge). Added after the third seeding round: the guarded-by rows of the matching state are evaluated here too (O-6/C03); the goroutine started per poll captures only per-iteration variables (language version of go.mod taken into account); the NAT vocabulary may be a constant lookup table (keys = vocabulary, values = mapping) instead of comparisons.",
+		Explanation: "E-GUARD + E-PROV + E-CONST. O-1 pool selection: AddSnowflake pushes to the heap loaded from field 'snowflakes' exactly on the natType == NATUnrestricted edge (else restrictedSnowflakes); the poll-timeout branch removes from the heap chosen by the same mapping on the same NAT value (sibling agreement); matchSnowflake pops from restrictedSnowflakes exactly on the client-NAT == NATUnrestricted edge, else from snowflakes (the complement). O-2 NAT vocabulary: the NAT constants of broker, common/nat and proxy/lib are equal, and both decoders accept exactly {\"\", unknown, restricted, unrestricted}, map \"\" to unknown, and reject everything else with an error. O-3 refusal only when the eligible pool is empty: matchSnowflake returns nil only through the false edge of Len() > 0 on the selected heap, test and pop in one critical section; ClientOffers answers 'no proxies' only when matchSnowflake returned nil. O-4 load order: Less compares the clients counts of its two arguments with strict <, clients never changes while queued, Swap/Push/Pop maintain index. Every clause is necessary: e.g. swapping the heaps in one branch gives a restricted client a restricted proxy. Added after the second seeding round: O-4 also requires that Push/Pop/Swap of SnowflakeHeap have no static caller (container/heap only); O-6 the legacy client format takes its NAT type from Header.Get(\"Snowflake-NAT-Type\") and hands it to the shared handler; O-7/C04 the deregistration obligations of C04 (a proxy leaves the pool it was put in on exactly the unclaimed edge). Added after the third seeding round: the guarded-by rows of the matching state are evaluated here too (O-6/C03); the goroutine started per poll captures only per-iteration variables (language version of go.mod taken into account); the NAT vocabulary may be a constant lookup table (keys = vocabulary, values = mapping) instead of comparisons. Added after the fourth seeding round: Less may consult any other criterion only behind the edge on which the two client counts are equal; Swap is judged by which element ends up in which slot, not by the spelling of the exchange.",
 		NotDecided:  "correctness of container/heap, fairness between simultaneous clients, the outcome of arbitrary concurrent histories beyond 'each client pops the current minimum of its eligible pool under the lock'.",
 		Assumptions: []string{"container/heap maintains the heap order given a correct heap.Interface"},
 	}, runC03)
@@ -413,7 +413,7 @@ func (c *Ctx) checkNATSwitch(rule, rel, name string) {
 			continue
 		}
 		n++
-		path := reachableWithout(fn, r, accept)
+		path := successReachableWithout(fn, r, ei, accept)
 		c.check(path == nil, rule, key+" success only for an accepted NAT string", p.instrPos(r), "", "a nil-error return is reachable without the NAT field having matched one of the accepted strings", p.pathString(path)...)
 	}
 	if n == 0 {
@@ -580,6 +580,63 @@ func retMayBeNil(r *ssa.Return, idx int) bool {
 	return rec(retVal(r, idx), r.Block())
 }
 
+// successReachableWithout: can fn return through r with a nil result idx without
+// having crossed one of the cut edges? When the result is merged in the return's
+// block (single-exit style: err set on some paths, returned at the end), each
+// incoming edge that can carry nil is judged on its own.
+func successReachableWithout(fn *ssa.Function, r *ssa.Return, idx int, cut []Edge) []*ssa.BasicBlock {
+	if !retMayBeNil(r, idx) {
+		return nil
+	}
+	ph, ok := retVal(r, idx).(*ssa.Phi)
+	if !ok || ph.Block() != r.Block() {
+		return reachableWithout(fn, r, cut)
+	}
+	isCut := func(from, to *ssa.BasicBlock) bool {
+		for _, e := range cut {
+			if e.From == from && e.To() == to && e.Via == nil {
+				return true
+			}
+		}
+		return false
+	}
+	var may func(v ssa.Value, seen map[ssa.Value]bool) bool
+	may = func(v ssa.Value, seen map[ssa.Value]bool) bool {
+		if isNilConst(v) {
+			return true
+		}
+		if definitelyNonNil(v) {
+			return false
+		}
+		if p2, isPhi := v.(*ssa.Phi); isPhi {
+			if seen[v] {
+				return false
+			}
+			seen[v] = true
+			for _, e := range p2.Edges {
+				if may(e, seen) {
+					return true
+				}
+			}
+			return false
+		}
+		return true
+	}
+	for i, e := range ph.Edges {
+		if !may(e, map[ssa.Value]bool{}) {
+			continue
+		}
+		pred := ph.Block().Preds[i]
+		if isCut(pred, ph.Block()) || len(pred.Instrs) == 0 {
+			continue
+		}
+		if path := reachableWithout(fn, pred.Instrs[len(pred.Instrs)-1], cut); path != nil {
+			return append(path, r.Block())
+		}
+	}
+	return nil
+}
+
 // mayBeNil: v is the nil constant or a phi with a nil edge.
 func mayBeNil(v ssa.Value) bool {
 	if isNilConst(v) {
@@ -619,16 +676,43 @@ func (c *Ctx) checkHeapShape() {
 		return ia.Index, f.Name(), true
 	}
 	good := false
+	isLoadCmp := func(v ssa.Value) bool {
+		lx, ly, ok := strictLess(v)
+		if !ok {
+			return false
+		}
+		ix, fx, okx := elemField(lx)
+		iy, fy, oky := elemField(ly)
+		return okx && oky && fx == "clients" && fy == "clients" && len(less.Params) == 3 && ix == ssa.Value(less.Params[1]) && iy == ssa.Value(less.Params[2])
+	}
+	isClients := func(v ssa.Value) bool { _, f, ok := elemField(v); return ok && f == "clients" }
+	// edges on which the two loads are known to be equal: anything else may decide the order only there
+	tie := condEdges(less, true, func(a Atom) bool { return a.Op == token.EQL && isClients(a.X) && isClients(a.Y) })
+	other := ""
 	for _, r := range returnsOf(less) {
-		if lx, ly, ok := strictLess(retVal(r, 0)); ok {
-			ix, fx, okx := elemField(lx)
-			iy, fy, oky := elemField(ly)
-			if okx && oky && fx == "clients" && fy == "clients" && len(less.Params) == 3 && ix == ssa.Value(less.Params[1]) && iy == ssa.Value(less.Params[2]) {
+		type leaf struct {
+			v  ssa.Value
+			at ssa.Instruction
+		}
+		leaves := []leaf{{retVal(r, 0), r}}
+		if ph, ok := retVal(r, 0).(*ssa.Phi); ok && ph.Block() == r.Block() {
+			leaves = nil
+			for i, e := range ph.Edges {
+				pred := ph.Block().Preds[i]
+				leaves = append(leaves, leaf{e, pred.Instrs[len(pred.Instrs)-1]})
+			}
+		}
+		for _, lf := range leaves {
+			if isLoadCmp(lf.v) {
 				good = true
+				continue
+			}
+			if len(tie) == 0 || reachableWithout(less, lf.at, tie) != nil {
+				other = p.instrPos(lf.at)
 			}
 		}
 	}
-	c.check(good, rule, "SnowflakeHeap.Less(i, j) is sh[i].clients < sh[j].clients", p.Pos(less.Pos()), "", "the comparator is not 'fewer clients first' on its two arguments (orientation, field or strictness changed)")
+	c.check(good && other == "", rule, "SnowflakeHeap.Less(i, j) is sh[i].clients < sh[j].clients", p.Pos(less.Pos()), "any other criterion decides only between equally loaded proxies", "the comparator is not 'fewer clients first' on its two arguments (orientation, field or strictness changed), or another criterion is consulted before the client counts ("+other+")")
 	// the heap.Interface methods are invoked by container/heap only: a direct
 	// call of Push/Pop/Swap appends, removes or exchanges without sifting and
 	// breaks the order that heap.Pop relies on
@@ -656,26 +740,54 @@ func (c *Ctx) checkHeapShape() {
 	if swap := p.Fn("broker", "(SnowflakeHeap).Swap"); swap != nil && len(swap.Params) == 3 {
 		n := 0
 		okSwap := true
-		var firstIdxStore ssa.Instruction
+		// the exchange: stores into the slots sh[k]
+		type slotStore struct {
+			st  *ssa.Store
+			idx ssa.Value
+		}
+		var slots []slotStore
+		allInstrs(swap, func(in ssa.Instruction) {
+			if st, ok := in.(*ssa.Store); ok {
+				if ia, isIA := st.Addr.(*ssa.IndexAddr); isIA {
+					slots = append(slots, slotStore{st, ia.Index})
+				}
+			}
+		})
+		covered := map[ssa.Value]bool{}
 		for _, s := range storesToField([]*ssa.Function{swap}, idxF) {
 			n++
-			if firstIdxStore == nil {
-				firstIdxStore = s
+			if s.Val != ssa.Value(swap.Params[1]) && s.Val != ssa.Value(swap.Params[2]) {
+				okSwap = false
+				continue
 			}
 			base, _, _ := fieldOfAddr(s.Addr)
-			addr, ok := loadAddr(strip(base))
-			ia, ok2 := addr.(*ssa.IndexAddr)
-			if !ok || !ok2 || ia.Index != s.Val || (s.Val != ssa.Value(swap.Params[1]) && s.Val != ssa.Value(swap.Params[2])) {
-				okSwap = false
-			}
-			// the element exchange must precede the index stores
-			allInstrs(swap, func(in ssa.Instruction) {
-				if st, ok := in.(*ssa.Store); ok {
-					if _, isIA := st.Addr.(*ssa.IndexAddr); isIA && !precedes(st, s) {
-						okSwap = false
+			good := false
+			// (a) the element is read back from slot k after the exchange and gets index k
+			if addr, ok := loadAddr(strip(base)); ok {
+				if ia, ok2 := addr.(*ssa.IndexAddr); ok2 && ia.Index == s.Val {
+					good = true
+					for _, sl := range slots {
+						if !precedes(sl.st, s) {
+							good = false
+						}
 					}
 				}
-			})
+			}
+			// (b) the element is the very value the exchange put into slot k
+			if !good {
+				for _, sl := range slots {
+					if strip(sl.st.Val) == strip(base) && sl.idx == s.Val {
+						good = true
+					}
+				}
+			}
+			if !good {
+				okSwap = false
+			}
+			covered[s.Val] = true
+		}
+		if len(covered) != 2 || len(slots) != 2 {
+			okSwap = false
 		}
 		c.check(okSwap && n == 2, rule, "SnowflakeHeap.Swap exchanges then sets sh[i].index = i and sh[j].index = j", p.Pos(swap.Pos()), "", "Swap does not keep index equal to the position after the exchange: a later heap.Remove(index) removes the wrong proxy")
 	}
@@ -829,7 +941,7 @@ func (c *Ctx) checkNATTable(rule, key string, fn *ssa.Function, isNATField func(
 			continue
 		}
 		n++
-		path := reachableWithout(fn, r, accept)
+		path := successReachableWithout(fn, r, ei, accept)
 		c.check(len(accept) > 0 && path == nil, rule, key+" success only for an accepted NAT string", p.instrPos(r), "behind the ok result of the table lookup", "a nil-error return is reachable without the NAT field having been found in the table", p.pathString(path)...)
 	}
 	if n == 0 {
